@@ -2732,11 +2732,13 @@ Qed.
 Lemma tv_cancel m r ob : tv_of (track_op cfg m (Cancel r) ob) = tv_of m \/ tv_of (track_op cfg m (Cancel r) ob) = stat_tv (tv_of m) r SCancelled.
 Proof.
   cbn [track_op]. destruct (nth_error (m_reqs m) r) as [x|]; [|left; reflexivity].
-  assert (E : tv_of (ri_upd (fun y => set_ri_pend false (set_ri_stat SCancelled
-                match ri_stat y, ri_dial y with SLive, DsFlying => set_ri_aband true y | _, _ => y end)) r m) = stat_tv (tv_of m) r SCancelled).
-  { unfold tv_of, stat_tv, ri_upd. cbn [m_conns m_reqs m_keys m_time set_m_reqs t_cv t_rv t_ks t_tm]. f_equal.
+  assert (E : forall m1, tv_of m1 = tv_of m -> tv_of (ri_upd (fun y => set_ri_pend false (set_ri_stat SCancelled
+                match ri_stat y, ri_dial y with SLive, DsFlying => set_ri_aband true y | _, _ => y end)) r m1) = stat_tv (tv_of m) r SCancelled).
+  { intros m1 E1. rewrite <- E1. unfold tv_of, stat_tv, ri_upd. cbn [m_conns m_reqs m_keys m_time set_m_reqs t_cv t_rv t_ks t_tm]. f_equal.
     apply map_upd. intros y. destruct (ri_stat y), (ri_dial y); reflexivity. }
-  destruct (ri_stat x); [right; exact E|right; exact E|left; reflexivity|left; reflexivity].
+  destruct (ri_stat x); [right; apply E|right; apply E; reflexivity|left; reflexivity|left; reflexivity].
+  destruct (ri_popx x) as [c|]; [|reflexivity]. destruct (nth_error (m_conns m) c) as [y|]; [|reflexivity].
+  destruct (ci_share y); [reflexivity|]. apply tv_ci_upd_id. reflexivity.
 Qed.
 
 Lemma tv_close m c : tv_of (ci_upd (fun x => set_ci_closed (first_some (ci_closed x) (m_i m)) x) c m) = close_tv (tv_of m) c (m_i m).
@@ -2864,7 +2866,8 @@ Lemma mreqs_len_op m o ob : List.length (m_reqs (track_op cfg m o ob)) = List.le
 Proof.
   destruct o; cbn [track_op is_issue]; unfold ri_upd, ci_upd; cbn [m_reqs set_m_reqs set_m_conns set_m_keys set_m_time]; rewrite ?upd_len, ?Nat.add_0_r; try reflexivity.
   - rewrite app_length. reflexivity.
-  - destruct (nth_error (m_reqs m) r) as [x|]; [|lia]. destruct (ri_stat x); cbn [m_reqs set_m_reqs]; rewrite ?upd_len; lia.
+  - destruct (nth_error (m_reqs m) r) as [x|]; [|lia]. destruct (ri_stat x); cbn [m_reqs set_m_reqs]; rewrite ?upd_len; try lia.
+    destruct (ri_popx x) as [c|]; [|lia]. destruct (nth_error (m_conns m) c) as [y|]; [|lia]. destruct (ci_share y); cbn [m_reqs set_m_conns]; lia.
   - destruct (holder_conn m r); reflexivity.
 Qed.
 
